@@ -6,7 +6,12 @@
 (* Judge), so TLC checks that the contract is satisfiable by a correct loop for every      *)
 (* scenario, and -- with Bad set -- that it refutes loops that block before running idle   *)
 (* callbacks, run removed callbacks, fire alarms out of order, or let a zero-delay alarm   *)
-(* overtake an alarm that is already overdue (busy start-up before run(), slow callback).  *)
+(* overtake an alarm that is already overdue (busy start-up before run(), slow callback),  *)
+(* call the callback it captured when a descriptor became ready although that watch has    *)
+(* been replaced since ("staleWatch"), only log a BaseException that is not an Exception    *)
+(* ("swallowBase"), or hand out idle handles that are still in use ("idleHandleReuse").     *)
+(* The program may call the API between the registrations and run() (scn.pre), callbacks    *)
+(* may watch a descriptor again after removing its watch and replace idle callbacks.        *)
 (* The scenarios double as test scripts for the six real loops (spec -> code).             *)
 EXTENDS EventLoopOps
 
@@ -14,11 +19,16 @@ CONSTANTS NA, NF, NI,      \* scripted alarms 1..NA (alarm NA+1 is the final exi
           Delays, Ats,     \* alarm delays; times at which a descriptor becomes readable (9999 = never within a session)
           ABeh, WBeh, IBeh,\* behaviours for alarm / watch / idle callbacks
           Busy,            \* subset of 0..NA: the program is busy (BusyD) right after registering alarm k, before run() (0 = no busy start-up)
+          Pre, MaxPre,     \* what the program may do after the registrations and before run(): up to MaxPre behaviours out of Pre
           Bad              \* "" for the correct loop, else the name of a deliberately wrong loop
 
 VARIABLES scn, s, nextid, why, phase, steps,
-          zero             \* ids of the alarms registered with delay 0 (what the wrong loop "zeroDelayFirst" serves from a ready queue)
-vars == <<scn, s, nextid, why, phase, steps, zero>>
+          zero,            \* ids of the alarms registered with delay 0 (what the wrong loop "zeroDelayFirst" serves from a ready queue)
+          ih,              \* the loop's registry of idle callbacks: tab: handle -> idle callback (0: free), of: idle callback -> the handle
+                           \* enter_idle() returned for it, ctr: handles given out so far; clean: the loop's own "idle pass done" flag
+          snap,            \* descriptor -> generation of the watch when the loop was told it is ready (only the wrong loop "staleWatch" keeps it)
+          todo             \* what is left of scn.pre
+vars == <<scn, s, nextid, why, phase, steps, zero, ih, snap, todo>>
 
 ExitAlarm == NA + 1
 ExitDelay == 100
@@ -28,7 +38,8 @@ Scenarios ==
   [alarms : [1..NA -> [delay : Delays, beh : ABeh]],
    watches : [1..NF -> [at : Ats, beh : WBeh]],
    idles : [1..NI -> IBeh],
-   busy : Busy]
+   busy : Busy,
+   pre : UNION {[1..n -> Pre] : n \in 0..MaxPre}]
 
 RECURSIVE Fold(_, _, _)
 Fold(st, evs, i) ==    \* run events through the monitor; stop at the first broken clause
@@ -45,45 +56,74 @@ AlarmRegs(sc, i) ==
 RegEvents(sc) ==
   AlarmRegs(sc, 1)
   \o <<[t |-> "reg_alarm", id |-> ExitAlarm, delay |-> ExitDelay]>>
-  \o [f \in 1..NF |-> [t |-> "reg_watch", fd |-> f]]
+  \o [f \in 1..NF |-> [t |-> "reg_watch", fd |-> f, gen |-> 1]]
   \o [i \in 1..NI |-> [t |-> "reg_idle", id |-> i]]
+
+\* the idle registry: enter_idle() gives out a handle that no live callback has (a running counter); the wrong loop
+\* "idleHandleReuse" derives it from the number of live callbacks, so after a removal a handle still in use is given out again
+InitIh == [tab |-> [h \in 1..MaxI |-> 0], of |-> [i \in 1..MaxI |-> 0], ctr |-> 0, clean |-> TRUE]
+IhApply(r, e) ==
+  CASE e.t = "reg_idle" -> LET h == IF Bad = "idleHandleReuse" THEN Cardinality({x \in 1..MaxI : r.tab[x] # 0}) + 1 ELSE r.ctr + 1
+                           IN [r EXCEPT !.tab[h] = e.id, !.of[e.id] = h, !.ctr = @ + 1]
+    [] e.t = "remove_idle" -> LET h == r.of[e.id] IN IF h = 0 THEN r ELSE [r EXCEPT !.tab[h] = 0]      \* whatever is registered under that handle
+    [] OTHER -> r
+RECURSIVE IhFold(_, _, _)
+IhFold(r, evs, i) == IF i > Len(evs) THEN r ELSE IhFold(IhApply(r, evs[i]), evs, i + 1)
+SetClean(r, v) == IF Bad = "idleHandleReuse" THEN [r EXCEPT !.clean = v] ELSE r
+NoSnap == [f \in 1..MaxF |-> 0]
 
 Init == /\ scn \in Scenarios
         /\ LET r == Fold(InitState, RegEvents(scn), 1) IN s = r.s /\ why = r.why
         /\ nextid = NA + 2
         /\ zero = {i \in 1..NA : scn.alarms[i].delay = 0}
-        /\ phase = "run"
+        /\ ih = IhFold(InitIh, RegEvents(scn), 1) /\ snap = NoSnap
+        /\ todo = scn.pre
+        /\ phase = IF scn.pre = <<>> THEN "run" ELSE "pre"
         /\ steps = 0
 
 \* events produced by a scripted behaviour b run from callback (kind, me)
 FreeIdle(st) == IF \E i \in 1..MaxI : st.idles[i] = "none" THEN CHOOSE i \in 1..MaxI : st.idles[i] = "none" /\ \A j \in 1..(i - 1) : st.idles[j] # "none" ELSE 0
 AddsAlarm(b) == b \in {"addAlarm", "addAlarm0", "slowAddAlarm0"}
 AddsZero(b) == b \in {"addAlarm0", "slowAddAlarm0"}
+\* whom a behaviour run from callback (kind, me) aims at among N registered callbacks of kind `own`: a callback of that kind aims at
+\* its successor, the k-th call before run() at the k-th, any other callback at the first
+Tgt(kind, me, own, N) == IF N = 0 THEN 0 ELSE IF kind = own THEN (me % N) + 1 ELSE IF kind = "pre" THEN ((me - 1) % N) + 1 ELSE 1
+RemoveIdleEv(tgt) == IF tgt = 0 THEN <<>> ELSE <<[t |-> "remove_idle", id |-> tgt, ret |-> s.idles[tgt] = "active"]>>
+AddIdleEv == IF FreeIdle(s) = 0 THEN <<>> ELSE <<[t |-> "reg_idle", id |-> FreeIdle(s)]>>
 BehEvents(b, kind, me) ==
   CASE b = "addAlarm" /\ nextid <= MaxA -> <<[t |-> "reg_alarm", id |-> nextid, delay |-> 10]>>
     [] b = "addAlarm0" /\ nextid <= MaxA -> <<[t |-> "reg_alarm", id |-> nextid, delay |-> 0]>>      \* the set_alarm_in(0, ...) idiom
     \* the callback is slow (alarms due meanwhile are overdue now) and then asks for a zero-delay alarm: due now, i.e. after them
     [] b = "slowAddAlarm0" -> <<[t |-> "slow", d |-> BusyD]>> \o (IF nextid <= MaxA THEN <<[t |-> "reg_alarm", id |-> nextid, delay |-> 0]>> ELSE <<>>)
-    [] b = "addIdle" /\ FreeIdle(s) # 0 -> <<[t |-> "reg_idle", id |-> FreeIdle(s)]>>     \* enter_idle() called from within a callback
-    [] b = "removeAlarm" -> LET tgt == IF kind = "alarm" THEN (me % NA) + 1 ELSE 1
+    [] b = "addIdle" -> AddIdleEv     \* enter_idle() called from within a callback (or before run(), after removals)
+    \* one idle callback is dropped and another one registered in its place (a view is replaced by another one)
+    [] b = "replaceIdle" -> RemoveIdleEv(Tgt(kind, me, "idle", NI)) \o AddIdleEv
+    \* a descriptor is watched AGAIN (a new watch, a callback of its own) after its watch, if any, was removed
+    [] b = "rewatch" /\ NF > 0 -> LET tgt == Tgt(kind, me, "watch", NF)
+                            IN (IF s.watches[tgt] = "watched" THEN <<[t |-> "remove_watch", fd |-> tgt, ret |-> TRUE]>> ELSE <<>>)
+                               \o <<[t |-> "reg_watch", fd |-> tgt, gen |-> s.wgen[tgt] + 1]>>
+    [] b = "removeAlarm" -> LET tgt == Tgt(kind, me, "alarm", NA)
                             IN <<[t |-> "remove_alarm", id |-> tgt, ret |-> s.alarms[tgt].st = "pending"]>>
-    [] b = "removeAlarmTwice" -> LET tgt == IF kind = "alarm" THEN (me % NA) + 1 ELSE 1
+    [] b = "removeAlarmTwice" -> LET tgt == Tgt(kind, me, "alarm", NA)
                             IN <<[t |-> "remove_alarm", id |-> tgt, ret |-> s.alarms[tgt].st = "pending"],
                                  [t |-> "remove_alarm", id |-> tgt, ret |-> FALSE]>>
-    [] b = "removeWatch" -> LET tgt == IF kind = "watch" THEN (me % NF) + 1 ELSE 1
+    [] b = "removeWatch" /\ NF > 0 -> LET tgt == Tgt(kind, me, "watch", NF)
                             IN <<[t |-> "remove_watch", fd |-> tgt, ret |-> s.watches[tgt] = "watched"]>>
     [] b = "removeSelfWatch" /\ kind = "watch" -> <<[t |-> "remove_watch", fd |-> me, ret |-> TRUE]>>
-    [] b = "removeIdle" -> LET tgt == IF kind = "idle" THEN (me % NI) + 1 ELSE 1
-                            IN <<[t |-> "remove_idle", id |-> tgt, ret |-> s.idles[tgt] = "active"]>>
+    [] b = "removeIdle" -> RemoveIdleEv(Tgt(kind, me, "idle", NI))
     [] b = "slow" -> <<[t |-> "slow", d |-> BusyD]>>
     [] b = "exit" -> <<[t |-> "raise", kind |-> "exit"]>>
     [] b = "error" -> <<[t |-> "raise", kind |-> "error"]>>
+    [] b = "base" -> <<[t |-> "raise", kind |-> "base"]>>       \* a BaseException that is not an Exception
     [] OTHER -> <<>>
 NextIdAfter(b) == IF AddsAlarm(b) /\ nextid <= MaxA THEN nextid + 1 ELSE nextid
 ZeroAfter(b) == IF AddsZero(b) /\ nextid <= MaxA THEN zero \cup {nextid} ELSE zero
 
 Emit(evs) == LET r == Fold(s, evs, 1) IN s' = r.s /\ why' = r.why
-Raised == s.raised # {}
+\* the wrong loop "swallowBase" catches Exception only: anything else a callback raises is logged by the library underneath
+Swallowed == IF Bad = "swallowBase" THEN {"base"} ELSE {}
+RaisedIn(st) == st.raised \ Swallowed # {}
+Raised == RaisedIn(s)
 
 AlarmBeh(a) == IF a = ExitAlarm THEN "exit" ELSE IF a <= NA THEN scn.alarms[a].beh ELSE "noop"
 
@@ -92,36 +132,48 @@ ServeAlarm(a) ==
   /\ s.alarms[a].st = "pending" /\ s.alarms[a].due <= s.now
   \* "zeroDelayFirst": zero-delay alarms go to a ready queue that is served before the overdue timers are looked at
   /\ (Bad = "alarmOrder" \/ (Bad = "zeroDelayFirst" /\ a \in zero) \/ \A b \in Pending(s) : s.alarms[b].due >= s.alarms[a].due)
-  /\ Emit(<<[t |-> "alarm_cb", id |-> a]>> \o BehEvents(AlarmBeh(a), "alarm", a))
+  /\ LET evs == <<[t |-> "alarm_cb", id |-> a]>> \o BehEvents(AlarmBeh(a), "alarm", a)
+     IN Emit(evs) /\ ih' = SetClean(IhFold(ih, evs, 1), FALSE)
   /\ nextid' = NextIdAfter(AlarmBeh(a)) /\ zero' = ZeroAfter(AlarmBeh(a))
-  /\ UNCHANGED <<scn, phase>>
+  /\ UNCHANGED <<scn, phase, snap, todo>>
 
+\* the callback of a later watch on a descriptor (registered by "rewatch") only reads the descriptor
+WatchBeh(f, g) == IF g = 1 THEN scn.watches[f].beh ELSE "noop"
 ServeWatch(f) ==
   /\ phase = "run" /\ ~Raised
   /\ (s.watches[f] = "watched" \/ (Bad = "removedWatch" /\ s.watches[f] = "removed")) /\ f \in s.readable
-  /\ Emit(<<[t |-> "watch_cb", fd |-> f], [t |-> "drain", fd |-> f]>> \o BehEvents(scn.watches[f].beh, "watch", f))
-  /\ nextid' = NextIdAfter(scn.watches[f].beh) /\ zero' = ZeroAfter(scn.watches[f].beh)
-  /\ UNCHANGED <<scn, phase>>
+  \* "staleWatch": the descriptor is still (or again) watched, so the callback captured when it became ready is called
+  /\ LET g == IF Bad = "staleWatch" /\ snap[f] # 0 THEN snap[f] ELSE s.wgen[f]
+         evs == <<[t |-> "watch_cb", fd |-> f, gen |-> g], [t |-> "drain", fd |-> f]>> \o BehEvents(WatchBeh(f, g), "watch", f)
+     IN /\ Emit(evs) /\ ih' = SetClean(IhFold(ih, evs, 1), FALSE)
+        /\ nextid' = NextIdAfter(WatchBeh(f, g)) /\ zero' = ZeroAfter(WatchBeh(f, g))
+  /\ snap' = [snap EXCEPT ![f] = 0]
+  /\ UNCHANGED <<scn, phase, todo>>
 
-\* all idle callbacks, one after the other; a callback removed by an earlier one is skipped
-RECURSIVE IdleRun(_, _)
-IdleRun(st, i) ==
-  IF i > MaxI THEN [s |-> st, why |-> "-"]
-  ELSE IF st.idles[i] # "active" \/ st.raised # {} THEN IdleRun(st, i + 1)
-  ELSE LET b == IF i <= NI THEN scn.idles[i] ELSE "noop"     \* idle callbacks registered from within callbacks do nothing
-           evs == <<[t |-> "idle_cb", id |-> i]>> \o
-                  (CASE b = "removeIdle" -> <<[t |-> "remove_idle", id |-> (i % NI) + 1, ret |-> st.idles[(i % NI) + 1] = "active"]>>
-                     [] b = "exit" -> <<[t |-> "raise", kind |-> "exit"]>>
-                     [] b = "error" -> <<[t |-> "raise", kind |-> "error"]>>
-                     [] b = "slow" -> <<[t |-> "slow", d |-> BusyD]>>
-                     [] OTHER -> <<>>)
-           r == Fold(st, evs, 1)
-       IN IF r.why # "-" THEN r ELSE IdleRun(r.s, i + 1)
+\* all idle callbacks in the registry, one after the other; a callback removed by an earlier one is skipped
+IdleBeh(b, i, st) ==
+  CASE b = "removeIdle" -> <<[t |-> "remove_idle", id |-> (i % NI) + 1, ret |-> st.idles[(i % NI) + 1] = "active"]>>
+    [] b = "exit" -> <<[t |-> "raise", kind |-> "exit"]>>
+    [] b = "error" -> <<[t |-> "raise", kind |-> "error"]>>
+    [] b = "base" -> <<[t |-> "raise", kind |-> "base"]>>
+    [] b = "slow" -> <<[t |-> "slow", d |-> BusyD]>>
+    [] OTHER -> <<>>
+RECURSIVE IdleRun(_, _, _)
+IdleRun(st, r, h) ==
+  IF h > MaxI THEN [s |-> st, ih |-> r, why |-> "-"]
+  ELSE LET i == r.tab[h]
+       IN IF i = 0 \/ RaisedIn(st) THEN IdleRun(st, r, h + 1)
+          ELSE LET b == IF i <= NI THEN scn.idles[i] ELSE "noop"     \* idle callbacks registered later do nothing
+                   evs == <<[t |-> "idle_cb", id |-> i]>> \o IdleBeh(b, i, st)
+                   res == Fold(st, evs, 1)
+               IN IF res.why # "-" THEN [s |-> res.s, ih |-> r, why |-> res.why] ELSE IdleRun(res.s, IhFold(r, evs, 1), h + 1)
 
 RunIdle ==
-  /\ phase = "run" /\ ~Raised /\ s.dirty
-  /\ LET r == IdleRun(s, 1) IN s' = [r.s EXCEPT !.dirty = FALSE] /\ why' = r.why
-  /\ UNCHANGED <<scn, nextid, phase, zero>>
+  /\ phase = "run" /\ ~Raised /\ s.dirty /\ (Bad = "idleHandleReuse" => ~ih.clean)
+  /\ LET r == IdleRun(s, ih, 1)
+     IN /\ s' = IF Bad = "idleHandleReuse" THEN r.s ELSE [r.s EXCEPT !.dirty = FALSE]
+        /\ ih' = SetClean(r.ih, TRUE) /\ why' = r.why
+  /\ UNCHANGED <<scn, nextid, phase, zero, snap, todo>>
 
 DueNow == \E a \in Pending(s) : s.alarms[a].due <= s.now
 ReadyNow == Watched(s) \cap s.readable
@@ -132,14 +184,14 @@ MinOf(S) == CHOOSE x \in S : \A y \in S : x <= y
 \* the loop goes quiescent until the next alarm or descriptor event
 Block ==
   /\ phase = "run" /\ ~Raised /\ ~DueNow /\ ReadyNow = {} /\ NextTimes # {}
-  /\ (Bad = "blockDirty" \/ ~s.dirty \/ ActiveIdles(s) = {})
+  /\ (Bad = "blockDirty" \/ ~s.dirty \/ ActiveIdles(s) = {} \/ (Bad = "idleHandleReuse" /\ ih.clean))
   /\ LET to == MinOf(NextTimes)
          fds == {f \in 1..NF : scn.watches[f].at = to}
          evs == <<[t |-> "wait", timeout |-> IF Pending(s) = {} THEN Inf ELSE MinDue(s) - s.now, ready |-> <<>>, grace |-> 0],
                   [t |-> "advance", to |-> to]>>
                 \o [k \in 1..Cardinality(fds) |-> [t |-> "env_readable", fd |-> CHOOSE f \in fds : Cardinality({g \in fds : g < f}) = k - 1]]
-     IN Emit(evs)
-  /\ UNCHANGED <<scn, nextid, phase, zero>>
+     IN Emit(evs) /\ snap' = IF Bad = "staleWatch" THEN [f \in 1..MaxF |-> IF f \in fds /\ s.watches[f] = "watched" THEN s.wgen[f] ELSE snap[f]] ELSE snap
+  /\ UNCHANGED <<scn, nextid, phase, zero, ih, todo>>
 
 \* descriptors that became readable before run() is entered (at time 0, or during a busy start-up) are readable from the start
 AtStart == {f \in 1..NF : scn.watches[f].at <= s.now /\ f \notin s.readable}
@@ -147,20 +199,33 @@ EnvAtStart ==
   /\ phase = "run" /\ steps = 0
   /\ AtStart # {}
   /\ Emit([k \in 1..Cardinality(AtStart) |-> [t |-> "env_readable", fd |-> CHOOSE f \in AtStart : Cardinality({g \in AtStart : g < f}) = k - 1]])
-  /\ UNCHANGED <<scn, nextid, phase, zero>>
+  /\ snap' = IF Bad = "staleWatch" THEN [f \in 1..MaxF |-> IF f \in AtStart /\ s.watches[f] = "watched" THEN s.wgen[f] ELSE snap[f]] ELSE snap
+  /\ UNCHANGED <<scn, nextid, phase, zero, ih, todo>>
+
+\* the program calls the API after the registrations and before run(): the k-th behaviour of scn.pre
+PreStep ==
+  /\ phase = "pre" /\ todo # <<>>
+  /\ LET b == Head(todo)
+         evs == BehEvents(b, "pre", Len(scn.pre) - Len(todo) + 1)
+     IN Emit(evs) /\ ih' = IhFold(ih, evs, 1) /\ nextid' = NextIdAfter(b) /\ zero' = ZeroAfter(b)
+  /\ todo' = Tail(todo)
+  /\ phase' = IF Tail(todo) = <<>> THEN "run" ELSE "pre"
+  /\ UNCHANGED <<scn, snap, steps>>
 
 Stop ==
   /\ phase = "run" /\ Raised
-  /\ Emit(<<[t |-> "run_end", outcome |-> IF "error" \in s.raised THEN "raise" ELSE "return", exc |-> "VfError"]>>)
+  /\ LET errs == (s.raised \ Swallowed) \ {"exit"}
+     IN Emit(<<[t |-> "run_end", outcome |-> IF errs # {} THEN "raise" ELSE "return", exc |-> (IF errs # {} THEN ExcName(CHOOSE k \in errs : TRUE) ELSE "")]>>)
   /\ phase' = "done"
-  /\ UNCHANGED <<scn, nextid, zero>>
+  /\ UNCHANGED <<scn, nextid, zero, ih, snap, todo>>
 
 Next == /\ why = "-"
-        /\ steps' = steps + 1
-        /\ \/ EnvAtStart
-           \/ (~ENABLED EnvAtStart /\ (\/ \E a \in 1..MaxA : ServeAlarm(a)
-                                       \/ \E f \in 1..NF : ServeWatch(f)
-                                       \/ RunIdle \/ Block \/ Stop))
+        /\ \/ PreStep
+           \/ /\ steps' = steps + 1
+              /\ \/ EnvAtStart
+                 \/ (~ENABLED EnvAtStart /\ (\/ \E a \in 1..MaxA : ServeAlarm(a)
+                                             \/ \E f \in 1..NF : ServeWatch(f)
+                                             \/ RunIdle \/ Block \/ Stop))
 Spec == Init /\ [][Next]_vars
 
 \* behaviour export (tlc -simulate): the scenario is drawn at random in the first step, because the
@@ -171,15 +236,18 @@ RandomScn(k) ==
   [alarms |-> [i \in 1..NA |-> [delay |-> RandomElement({d \in Delays : k >= 0}), beh |-> RandomElement({b \in ABeh : k >= 0})]],
    watches |-> [f \in 1..NF |-> [at |-> RandomElement({a \in Ats : k >= 0}), beh |-> RandomElement({b \in WBeh : k >= 0})]],
    idles |-> [i \in 1..NI |-> RandomElement({b \in IBeh : k >= 0})],
-   busy |-> RandomElement({b \in Busy : k >= 0})]
-SimInit == /\ scn = [alarms |-> <<>>, watches |-> <<>>, idles |-> <<>>, busy |-> 0]
+   busy |-> RandomElement({b \in Busy : k >= 0}),
+   pre |-> RandomElement({p \in UNION {[1..n -> Pre] : n \in 0..MaxPre} : k >= 0})]
+SimInit == /\ scn = [alarms |-> <<>>, watches |-> <<>>, idles |-> <<>>, busy |-> 0, pre |-> <<>>]
            /\ s = InitState /\ why = "-" /\ nextid = NA + 2 /\ phase = "choose" /\ steps = 0 /\ zero = {}
+           /\ ih = InitIh /\ snap = NoSnap /\ todo = <<>>
 Choose == /\ phase = "choose"
           /\ scn' = RandomScn(steps)
           /\ LET r == Fold(InitState, RegEvents(scn'), 1) IN s' = r.s /\ why' = r.why
           /\ zero' = {i \in 1..NA : scn'.alarms[i].delay = 0}
-          /\ phase' = "run"
-          /\ UNCHANGED <<nextid, steps>>
+          /\ ih' = IhFold(InitIh, RegEvents(scn'), 1) /\ todo' = scn'.pre
+          /\ phase' = IF scn'.pre = <<>> THEN "run" ELSE "pre"
+          /\ UNCHANGED <<nextid, steps, snap>>
 SimSpec == SimInit /\ [][Choose \/ Next]_vars
 
 ContractHolds == why = "-"
